@@ -13,11 +13,9 @@ iteration order of the dependency sets and every assignment `fails` of failing c
 namespace HailVerif.C17
 open HailVerif.BatchOrder
 
-/-- `b` is a dependency of `a` -/
-def Edge (g : Pipe) (a b : Nat) : Prop := b ∈ g.deps a
-
-/-- some job of the batch depends (transitively, in at least one step) on itself -/
-def Cyclic (g : Pipe) : Prop := ∃ j, j < g.n ∧ Relation.TransGen (Edge g) j j
+/-- some job of the batch depends (transitively, in at least one step) on itself
+(`Edge deps a b` : `b ∈ deps a`, i.e. `b` is a dependency of `a`) -/
+def Cyclic (g : Pipe) : Prop := ∃ j, j < g.n ∧ Relation.TransGen (Edge g.deps) j j
 
 /-- every dependency of a job of the batch is a job of the batch -/
 def Closed (g : Pipe) : Prop := ∀ j, j < g.n → ∀ d ∈ g.deps j, d < g.n
@@ -48,7 +46,7 @@ theorem cyclic_rejected (g : Pipe) (hc : Cyclic g) : ∀ ord, accept g ≠ .ok o
   obtain ⟨hp, hfw⟩ := accepted_is_topological g ord h
   obtain ⟨j, hj, hcyc⟩ := hc
   have hjo : j ∈ ord := hp.mem_iff.2 (List.mem_range.2 hj)
-  have key : ∀ a b, Relation.TransGen (Edge g) a b → a ∈ ord → b ∈ ord ∧ ord.idxOf b < ord.idxOf a := by
+  have key : ∀ a b, Relation.TransGen (Edge g.deps) a b → a ∈ ord → b ∈ ord ∧ ord.idxOf b < ord.idxOf a := by
     intro a b hab
     induction hab with
     | single hab => intro ha; exact hfw a ha _ hab
@@ -59,6 +57,27 @@ theorem cyclic_rejected (g : Pipe) (hc : Cyclic g) : ∀ ord, accept g ≠ .ok o
       exact ⟨hc', by omega⟩
   have := (key j j hcyc hjo).2
   omega
+
+/-- **Every DAG-shaped pipeline is accepted**, whatever the creation order of the jobs and the iteration order of
+the dependency sets: the depth-first post-order numbers every job after all jobs it depends on, the fuel of the model's
+recursion never runs out, the `assert` holds and the cycle check passes. (`Closed`: dependencies are jobs of the same
+batch — the DSL cannot express anything else for resource edges; `depends_on` with a foreign job trips the assert.) -/
+theorem dag_accepted (g : Pipe) (hcl : Closed g) (hac : ¬ Cyclic g) : ∃ ord, accept g = .ok ord := by
+  have hac' : ∀ j, j < g.n → ¬ Relation.TransGen (Edge g.deps) j j := fun j hj hc => hac ⟨j, hj, hc⟩
+  have hg := dfs_good g hcl hac'
+  obtain ⟨htop, hall⟩ := dfs_top g
+  refine ⟨(dfs g).ord, (accept_ok_iff g _).2 ⟨rfl, ?_, hg.fw⟩⟩
+  -- `seen` holds exactly the jobs of the batch
+  have hsub : (dfs g).seen ⊆ List.range g.n := fun x hx => List.mem_range.2 (hg.seen_lt x hx)
+  have h1 := (List.subperm_of_subset hg.seen_nd hsub).length_le
+  have hsub2 : List.range g.n ⊆ (dfs g).seen := fun x hx => htop.2.mem_iff.2 (hall x (List.mem_range.1 hx))
+  have h2 := (List.subperm_of_subset List.nodup_range hsub2).length_le
+  rw [List.length_range] at h1 h2
+  omega
+
+/-- For closed pipelines the verdict is therefore decided by the graph alone: accepted iff acyclic. -/
+theorem accepted_iff_acyclic (g : Pipe) (hcl : Closed g) : (∃ ord, accept g = .ok ord) ↔ ¬ Cyclic g :=
+  ⟨fun ⟨ord, h⟩ hc => cyclic_rejected g hc ord h, dag_accepted g hcl⟩
 
 /-! ### the local backend -/
 
@@ -159,5 +178,7 @@ example : accept { n := 2, deps := fun j => if j = 0 then [1] else [0], alwaysRu
 example : accept { n := 1, deps := fun _ => [0], alwaysRun := fun _ => false } = .cycle := by decide
 example : Cyclic { n := 1, deps := fun _ => [0], alwaysRun := fun _ => false } :=
   ⟨0, by decide, Relation.TransGen.single (by simp [Edge])⟩
+example : Closed diamond := by unfold Closed; decide
+example : ¬ Cyclic diamond := fun hc => cyclic_rejected diamond hc [3, 1, 2, 0] (by decide)
 
 end HailVerif.C17
